@@ -2,7 +2,7 @@
    Property theorems only; each closed by `exact <lemma>`.  Model: Model/Stream.v (hand model, tie C),
    Gen/Version.v + Gen/ParseCodes.v (tie T).  The pattern matchers are abstract automata. *)
 From Coq Require Import ZArith List Bool.
-From VC2 Require Import Base.PyZ Model.Stream Proofs.StreamProofs.
+From VC2 Require Import Base.PyZ Model.Stream Proofs.StreamProofs Proofs.StreamRefine Proofs.StreamLift.
 Import ListNotations.
 Open Scope Z_scope.
 
@@ -22,6 +22,16 @@ Section C01.
   Hypothesis Hgen : gen_first_is_seqhdr_b gstart gstep = true.
   Hypothesis Hlvl : forall l, level_known l = true -> lvl_accepts_seqhdr_b lstart lstep l = true.
 
+  (* The validator (repaired behaviour) accepts a sequence of individually valid data units if
+     and only if all ten stream-structure rules hold -- for unit lists of ANY length.  `one_sequence`:
+     the list is one sequence of a stream (non-empty, nothing follows an end of sequence); the
+     stream-level statement is C01_stream_lift below. *)
+  Theorem C01_iff : forall us,
+    units_valid level_known us = true -> one_sequence us = true ->
+    (run gst gstart gstep gcomplete lst lstart lstep lcomplete level_known false us = Accept <->
+     rules_ok gst gstart gstep gcomplete lst lstart lstep lcomplete us = true).
+  Proof. exact (iff_one_sequence gst gstart gstep gcomplete lst lstart lstep lcomplete level_known Hgen). Qed.
+
   (* Every rejection is reported as a conformance error: for ANY stream of data units (any kinds,
      order, numbers, offsets; `units_valid` is more than is needed: a slice-bearing fragment has a
      positive slice count) the repaired validator never ends in a non-conformance exception. *)
@@ -29,7 +39,57 @@ Section C01.
     units_valid level_known us = true ->
     forall e, run gst gstart gstep gcomplete lst lstart lstep lcomplete level_known false us <> VCrash e.
   Proof. exact (no_crash_valid gst gstart gstep gcomplete lst lstart lstep lcomplete level_known Hgen Hlvl). Qed.
+
+  (* Streams: a concatenation of complete sequences (each ends with its only end-of-sequence unit) is
+     accepted iff every sequence is accepted on its own ... *)
+  Theorem C01_stream_lift : forall seqs, Forall (fun s => eos_only_last s = true) seqs ->
+    (run_stream gst gstart gstep gcomplete lst lstart lstep lcomplete level_known false seqs = Accept <->
+     Forall (fun s => run gst gstart gstep gcomplete lst lstart lstep lcomplete level_known false s = Accept) seqs).
+  Proof. exact (stream_lift gst gstart gstep gcomplete lst lstart lstep lcomplete level_known false). Qed.
+
+  (* ... i.e. iff every sequence obeys the ten rules *)
+  Theorem C01_stream_iff : forall seqs,
+    Forall (fun s => eos_only_last s = true) seqs -> Forall (fun s => units_valid level_known s = true) seqs ->
+    (run_stream gst gstart gstep gcomplete lst lstart lstep lcomplete level_known false seqs = Accept <->
+     Forall (fun s => rules_ok gst gstart gstep gcomplete lst lstart lstep lcomplete s = true) seqs).
+  Proof. exact (stream_iff_rules gst gstart gstep gcomplete lst lstart lstep lcomplete level_known Hgen). Qed.
 End C01.
 
-Example C01_example : True.
-Proof. exact I. Qed.
+(* ---- non-vacuity, and the pinned tree's two defects, on a small concrete instance:
+   generic automaton = "sequence_header .* end_of_sequence", no level restriction *)
+Definition ex_gstep (s : Z) (sym : symbol) : option Z :=
+  if s =? 0 then (match sym with SSeqHdr => Some 1 | _ => None end)
+  else match sym with SEos => Some 2 | _ => Some 1 end.
+Definition ex_run (pinned : bool) :=
+  run Z 0 ex_gstep (fun s => s =? 2) unit (fun _ => tt) (fun _ _ _ => Some tt) (fun _ _ => true) (fun _ => true) pinned.
+Definition ex_rules :=
+  rules_ok Z 0 ex_gstep (fun s => s =? 2) unit (fun _ => tt) (fun _ _ _ => Some tt) (fun _ _ => true).
+Definition ex_hdr := mkUnit (KSeqHdr (mkHdr 1 3 3 0 0 1)) 20 20 0.
+Definition ex_tp := mkTp 4 4 0 2 1.
+
+(* a conformant fragmented picture is accepted, and all ten rules hold *)
+Example C01_example_accept :
+  let us := [ex_hdr; mkUnit (KFragFirst true 7 ex_tp) 30 30 20; mkUnit (KFragData true 7 1 0 0) 40 0 30;
+             mkUnit (KFragData true 7 1 1 0) 40 40 40; mkUnit KEos 13 0 40] in
+  units_valid (fun _ => true) us = true /\ one_sequence us = true /\ ex_run false us = Accept /\ ex_rules us = true.
+Proof. vm_compute. repeat split. Qed.
+
+(* dropping the second slice fragment is rejected, by the validator and by the rules *)
+Example C01_example_reject :
+  let us := [ex_hdr; mkUnit (KFragFirst true 7 ex_tp) 30 30 20; mkUnit (KFragData true 7 1 0 0) 40 0 30;
+             mkUnit KEos 13 0 40] in
+  units_valid (fun _ => true) us = true /\
+  ex_run false us = VReject SequenceContainsIncompleteFragmentedPicture /\ ex_rules us = false.
+Proof. vm_compute. repeat split. Qed.
+
+(* the behaviour of the PINNED tree violates "every rejection is a conformance error" (defects repaired
+   by fixes/C01-fragment-without-first.diff and fixes/C02-parse-info-unbound.diff) *)
+Theorem C01_pinned_fragment_header_refuted : exists us,
+  units_valid (fun _ => true) us = true /\ ex_run true us = VCrash KeyError_last_picture_number.
+Proof. exists [ex_hdr; mkUnit (KFragData true 7 1 0 0) 40 40 20; mkUnit KEos 13 0 40]. vm_compute. split; reflexivity. Qed.
+
+Theorem C01_pinned_parse_info_refuted : exists us,
+  units_valid (fun _ => true) us = true /\ ex_run true us = VCrash UnboundLocalError_true_parse_offset.
+Proof.
+  exists [ex_hdr; mkUnit (KPic true 7 ex_tp) 30 0 20; mkUnit KEos 13 0 5]. vm_compute. split; reflexivity.
+Qed.
